@@ -19,6 +19,18 @@
     transactions whose code makes any sequence of Create / Migrate / Destroy / Storage.Put /
     Storage.Delete / AddDestroyed / RemoveDestroyed calls under any executing address.
 
+    The code as it is and the code as it is meant. [exec false] / [run_chain false] model the code
+    AS IT IS: smartcontract/service/neovm/storage.go:checkStorageContext returns
+    `errors.NewDetailErr(err, ...)` when `err != nil || item == nil`, and NewDetailErr(nil, ...) is nil,
+    so Storage.Put / Storage.Delete accept a context whose contract does not exist or is destroyed.
+    [exec true] / [run_chain true] differ only in making that test effective. The clause "never
+    written to again" is therefore REFUTED for the code as it is ((6), (7): `_refuted` with concrete
+    witnesses, replayed on the implementation by the driver, class
+    `storage:write-through-missing-context`) and proved outside that class (`_partial`: every history on
+    which making the test effective changes nothing); everything else — (2)-(5), and in (6) the marker,
+    the missing record and the refusal of every deployment at / migration onto / call of the address —
+    is proved for the code as it is.
+
     Fuel: the model's iterator functions take fuel; [snd r = true] in (2)-(4) says the fuel the
     model supplies is always enough (the outcome [NoFuel] / error [OutOfFuel] never occurs on
     well-formed stores, so it is excluded by theorem, not by hypothesis). *)
@@ -118,14 +130,13 @@ Qed.
 Print Assumptions c44_destroy_removes_all.
 
 (** (4) Contract.Migrate as the NeoVM service runs it (ensureContractUndeployed, PutContract,
-    MigrateContractStorage): when it succeeds from [cur] to [new <> cur] and [new] owned no
-    storage (which (6) guarantees for an address without a record), the storage of [new] afterwards
-    IS the storage of [cur] before, suffix by suffix, [cur] owns nothing, [new] carries the new
-    record and [cur] none. *)
+    MigrateContractStorage; code as it is): when it succeeds from [cur] to [new <> cur] and [new]
+    owned no storage, the storage of [new] afterwards IS the storage of [cur] before, suffix by
+    suffix, [cur] owns nothing, [new] carries the new record and [cur] none. *)
 Theorem c44_contract_migrate_exact : forall track h cur new code s s',
   good_state s = true -> cop_wf (CMigrate cur new code) = true -> cur <> new ->
   (contract_record s new = [] -> forall sfx, storage_at s new sfx = []) ->
-  exec true track h s (CMigrate cur new code) = Ok s' ->
+  exec false track h s (CMigrate cur new code) = Ok s' ->
   (forall sfx, storage_at s' new sfx = storage_at s cur sfx) /\
   (forall sfx, storage_at s' cur sfx = []) /\
   contract_record s' new = code /\ contract_record s' cur = [] /\
@@ -133,100 +144,205 @@ Theorem c44_contract_migrate_exact : forall track h cur new code s s',
 Proof. intros track h cur new code s s' G. apply good_state_good in G. apply contract_migrate_exact; exact G. Qed.
 Print Assumptions c44_contract_migrate_exact.
 
-(** (5) With tracking active (track <= height), Contract.Destroy and Contract.Migrate leave the
-    executing address dead: marker set, GetContract = (nil, destroyed), no storage. And a
-    transaction that commits after such a call (with no operator RemoveDestroyed of that address
-    behind it) hands that state to the next transaction. *)
+(** (5) With tracking active (track <= height), Contract.Destroy and Contract.Migrate (code as it
+    is) leave the executing address dead: marker set, GetContract = (nil, destroyed), no storage
+    (Get on every suffix and the iterator). *)
 Theorem c44_leaving_marks : forall track h a s s' o,
   good_state s = true -> is_addr a = true -> cop_wf o = true -> track <= h -> leaves a o ->
-  exec true track h s o = Ok s' -> good_state s' = true /\ dead_now s' a.
+  exec false track h s o = Ok s' -> good_state s' = true /\ dead_now s' a.
 Proof.
   intros track h a s s' o G Aa W Hh L E. apply good_state_good in G.
   destruct L as [->|(new & code & ->)].
-  - destruct (destroy_marks track h a s s' G Aa Hh E) as (G' & D & _). split; [apply good_state_good; exact G'|exact D].
-  - destruct (migrate_marks track h a new code s s' G W Hh E) as (G' & D). split; [apply good_state_good; exact G'|exact D].
+  - destruct (destroy_marks false track h a s s' G Aa Hh E) as (G' & D & _). split; [apply good_state_good; exact G'|exact D].
+  - destruct (migrate_marks false track h a new code s s' G W Hh E) as (G' & D). split; [apply good_state_good; exact G'|exact D].
 Qed.
 Print Assumptions c44_leaving_marks.
 
-Theorem c44_leaving_tx_commits_dead : forall track h a s pre o post,
-  good_state s = true -> is_addr a = true -> track <= h -> forallb cop_wf (pre ++ o :: post) = true ->
-  leaves a o -> existsb (cop_unsets a) post = false ->
-  let r := run_tx true track h s (TInvoke (pre ++ o :: post)) in
-  snd r = Committed -> good_state (fst r) = true /\ dead_now (next_view (fst r)) a.
-Proof.
-  intros track h a s pre o post G Aa Hh W L U r C. apply good_state_good in G.
-  destruct (leaving_tx_commits_dead track h a s pre o post G Aa Hh W L U C) as [G' D].
-  split; [apply good_state_good; exact G'|exact D].
-Qed.
-Print Assumptions c44_leaving_tx_commits_dead.
-
-(** (6) Destroyed is for ever. If the next transaction would see [a] destroyed and owning no
-    storage, then after ANY chain of blocks (any heights, any transactions, any service calls
-    under any executing address) that does not contain the operator's RemoveDestroyed(a):
-    [a] is still destroyed, GetContract(a) = (nil, destroyed), it owns no storage (Get and
-    iterator), and NO transaction that deploys at [a], migrates to [a], destroys [a] or puts /
-    deletes under [a] has committed — every one of them failed and was rolled back. *)
-Theorem c44_destroyed_forever : forall track a bs s,
+(** (6) "Destroyed is for ever" — the full statement, about the code as it is: if the next
+    transaction would see [a] destroyed and owning no storage, then after ANY chain of blocks without
+    the operator's RemoveDestroyed(a), [a] is still dead (marker, GetContract = (nil, destroyed),
+    no storage by Get and by iterator) and NO transaction that deploys at [a], migrates onto [a],
+    destroys [a] or puts / deletes under [a] has committed. *)
+Definition c44_destroyed_forever_statement : Prop := forall track a bs s,
   good_state s = true -> is_addr a = true -> forallb block_wf bs = true -> existsb (block_unsets a) bs = false ->
   is_destroyed (next_view s) a = true -> (forall sfx, storage_at (next_view s) a sfx = []) ->
-  let r := run_chain true track s bs in
+  let r := run_chain false track s bs in
+  good_state (fst r) = true /\ dead_now (next_view (fst r)) a /\
+  Forall2 (fun b os => Forall2 (fun t o => tx_touches a t = true -> o <> Committed) (b_txs b) os) bs (snd r).
+
+(** The finding class: histories on which making checkStorageContext effective changes the run,
+    i.e. some committed transaction wrote or deleted through a missing / destroyed context. *)
+Definition outside_finding_class (track : N) (s : state) (bs : list block) : Prop :=
+  run_chain false track s bs = run_chain true track s bs.
+Definition in_finding_class (track : N) (s : state) (bs : list block) : Prop :=
+  ~ outside_finding_class track s bs.
+
+Definition ex_a1 : bytes := repeat 7 19 ++ [1].
+Definition ex_a2 : bytes := repeat 7 19 ++ [2].
+Definition ex_a3 : bytes := repeat 255 20.
+Definition ex_code : bytes := [1; 2; 3].
+
+(** witness: [a] carries only a marker; one invoke transaction whose code runs under [a] (an entry
+    script that IS the destroyed contract's code, or the contract's own code after Contract.Destroy
+    in the same execution) calls Storage.Put. *)
+Definition wit_dead_state : state := mkState [] [] [(6 :: ex_a1, [1; 0; 0; 0])].
+Definition wit_chain : list block := [mkBlock 1 [TInvoke [CPut ex_a1 [1] [2]]]].
+
+Theorem c44_destroyed_forever_refuted : ~ c44_destroyed_forever_statement.
+Proof.
+  intro H.
+  destruct (H 0 ex_a1 wit_chain wit_dead_state eq_refl eq_refl eq_refl eq_refl eq_refl (fun sfx => eq_refl))
+    as (_ & (_ & _ & D & _) & _).
+  specialize (D [1]). vm_compute in D. discriminate.
+Qed.
+Print Assumptions c44_destroyed_forever_refuted.
+
+Example c44_witness_in_class : in_finding_class 0 wit_dead_state wit_chain /\
+  snd (run_chain false 0 wit_dead_state wit_chain) = [[Committed]] /\
+  snd (run_chain true 0 wit_dead_state wit_chain) = [[Failed]].
+Proof. split; [intro E; vm_compute in E; discriminate|split; vm_compute; reflexivity]. Qed.
+
+(** Outside the finding class the full statement holds. *)
+Theorem c44_destroyed_forever_partial : forall track a bs s,
+  outside_finding_class track s bs ->
+  good_state s = true -> is_addr a = true -> forallb block_wf bs = true -> existsb (block_unsets a) bs = false ->
+  is_destroyed (next_view s) a = true -> (forall sfx, storage_at (next_view s) a sfx = []) ->
+  let r := run_chain false track s bs in
   good_state (fst r) = true /\ dead_now (next_view (fst r)) a /\
   Forall2 (fun b os => Forall2 (fun t o => tx_touches a t = true -> o <> Committed) (b_txs b) os) bs (snd r).
 Proof.
-  intros track a bs s G Aa W U D1 D2 r. apply good_state_good in G.
+  intros track a bs s E G Aa W U D1 D2 r. apply good_state_good in G.
+  unfold outside_finding_class in E. unfold r. rewrite E.
   destruct (destroyed_forever track a bs s G Aa W U D1 D2) as (G' & D & F).
   split; [apply good_state_good; exact G'|]. split; [exact D|exact F].
 Qed.
-Print Assumptions c44_destroyed_forever.
+Print Assumptions c44_destroyed_forever_partial.
 
-(** (6') The same inside one execution: once [a] is dead, every later call that would deploy at
-    it or write under it is refused (Storage.Put / Delete / Contract.Destroy with its context,
-    Contract.Migrate to it), Contract.Create of it is a no-op, the deploy transaction fails, and
-    any other call leaves it dead. *)
-Theorem c44_dead_refuses : forall track h a s o,
+(** And for ALL histories of the code as it is (inside the finding class too): the marker stays,
+    the address has no contract record, GetContract = (nil, destroyed), and no transaction that
+    deploys at [a], migrates onto [a], lets [a] call Contract.Destroy or APPCALLs [a] commits. So
+    the only thing the defect lets through is a Storage.Put / Delete by code that already runs
+    under the address [a]. *)
+Theorem c44_marker_forever : forall track a bs s,
+  good_state s = true -> is_addr a = true -> forallb block_wf bs = true -> existsb (block_unsets a) bs = false ->
+  is_destroyed (next_view s) a = true -> contract_record (next_view s) a = [] ->
+  let r := run_chain false track s bs in
+  good_state (fst r) = true /\ is_destroyed (next_view (fst r)) a = true /\
+  contract_record (next_view (fst r)) a = [] /\ get_contract (next_view (fst r)) a = (None, true) /\
+  Forall2 (fun b os => Forall2 (fun t o => tx_claims a t = true -> o <> Committed) (b_txs b) os) bs (snd r).
+Proof.
+  intros track a bs s G Aa W U D1 D2 r. apply good_state_good in G.
+  destruct (marked_forever false track a bs s G Aa W U D1 D2) as (G' & R).
+  split; [apply good_state_good; exact G'|exact R].
+Qed.
+Print Assumptions c44_marker_forever.
+
+(** (6') The same inside one execution, code as it is: once [a] is marked and without record,
+    Contract.Migrate onto it, Contract.Destroy by it and APPCALL of it are refused, Contract.Create
+    of it is a no-op, the deploy transaction fails, every other call leaves it marked. *)
+Theorem c44_marked_refuses : forall track h a s o,
+  good_state s = true -> is_addr a = true ->
+  is_destroyed s a = true -> contract_record s a = [] ->
+  cop_wf o = true -> cop_unsets a o = false ->
+  (cop_claims a o = true -> exec false track h s o = Err Refused) /\
+  (forall code, exec false track h s (CCreate a code) = Ok s) /\
+  (forall s', exec false track h s o = Ok s' ->
+     good_state s' = true /\ is_destroyed s' a = true /\ contract_record s' a = [] /\ get_contract s' a = (None, true)).
+Proof.
+  intros track h a s o G Aa D1 D2 W U. apply good_state_good in G.
+  destruct (marked_refuses false track h a s o G Aa D1 D2 W U) as (A & B & C).
+  split; [exact A|]. split; [exact B|]. intros s' E. destruct (C s' E) as (G' & R).
+  split; [apply good_state_good; exact G'|exact R].
+Qed.
+Print Assumptions c44_marked_refuses.
+
+Theorem c44_deploy_refused : forall strict track h a code s,
+  is_destroyed (next_view s) a = true ->
+  run_tx strict track h s (TDeploy a code) = (next_view s, Failed).
+Proof. intros strict track h a code s D. unfold run_tx, next_view in *. unfold get_contract. rewrite D. reflexivity. Qed.
+Print Assumptions c44_deploy_refused.
+
+(** With the test effective, a dead address refuses Storage.Put / Delete as well and stays dead
+    (no storage); for the code as it is the Put goes through ([c44_write_through_dead_context]). *)
+Theorem c44_dead_refuses_partial : forall track h a s o,
   good_state s = true -> is_addr a = true ->
   is_destroyed s a = true -> (forall sfx, storage_at s a sfx = []) ->
   cop_wf o = true -> cop_unsets a o = false ->
   (cop_touches a o = true -> exec true track h s o = Err Refused) /\
-  (forall code, exec true track h s (CCreate a code) = Ok s) /\
   (forall s', exec true track h s o = Ok s' -> good_state s' = true /\ dead_now s' a).
 Proof.
   intros track h a s o G Aa D1 D2 W U. apply good_state_good in G.
-  destruct (dead_refuses track h a s o G Aa D1 D2 W U) as (A & B & C).
-  split; [exact A|]. split; [exact B|]. intros s' E. destruct (C s' E) as [G' D].
+  destruct (dead_refuses track h a s o G Aa D1 D2 W U) as (A & _ & C).
+  split; [exact A|]. intros s' E. destruct (C s' E) as [G' D]. split; [apply good_state_good; exact G'|exact D].
+Qed.
+Print Assumptions c44_dead_refuses_partial.
+
+Theorem c44_write_through_dead_context :
+  exists s a k v s', good_state s = true /\ is_addr a = true /\ is_destroyed s a = true /\
+    (forall sfx, storage_at s a sfx = []) /\
+    exec false 0 1 s (CPut a k v) = Ok s' /\ storage_at s' a k <> [] /\ is_destroyed s' a = true.
+Proof.
+  exists wit_dead_state, ex_a1, [1], [2]. eexists. repeat split; try reflexivity.
+  vm_compute. discriminate.
+Qed.
+Print Assumptions c44_write_through_dead_context.
+
+(** (5') A committed transaction that destroys or migrates away [a] hands a dead [a] to the next
+    transaction — outside the finding class (no Storage.Put under [a] behind the call). *)
+Theorem c44_leaving_tx_commits_dead_partial : forall track h a s pre o post,
+  run_tx false track h s (TInvoke (pre ++ o :: post)) = run_tx true track h s (TInvoke (pre ++ o :: post)) ->
+  good_state s = true -> is_addr a = true -> track <= h -> forallb cop_wf (pre ++ o :: post) = true ->
+  leaves a o -> existsb (cop_unsets a) post = false ->
+  let r := run_tx false track h s (TInvoke (pre ++ o :: post)) in
+  snd r = Committed -> good_state (fst r) = true /\ dead_now (next_view (fst r)) a.
+Proof.
+  intros track h a s pre o post E G Aa Hh W L U r C. apply good_state_good in G.
+  unfold r in *. rewrite E in *.
+  destruct (leaving_tx_commits_dead track h a s pre o post G Aa Hh W L U C) as [G' D].
   split; [apply good_state_good; exact G'|exact D].
 Qed.
-Print Assumptions c44_dead_refuses.
+Print Assumptions c44_leaving_tx_commits_dead_partial.
 
-Theorem c44_deploy_refused : forall track h a code s,
-  good_state s = true -> is_destroyed (next_view s) a = true ->
-  run_tx true track h s (TDeploy a code) = (next_view s, Failed).
-Proof. intros track h a code s G. apply good_state_good in G. apply deploy_refused; exact G. Qed.
-Print Assumptions c44_deploy_refused.
-
-(** (7) No orphan storage, for all histories: "an address without a contract record owns no
-    storage" is preserved by every chain of blocks and by every single service call — so the
-    hypothesis of (4) holds for every undeployed migration target, and a destroyed or
-    migrated-away address leaves nothing behind that a later deployment could inherit. *)
-Theorem c44_no_orphan_storage : forall track a bs s,
+(** (7) No orphan storage — full statement (code as it is): "an address without a contract record
+    owns no storage" is preserved by every chain. Refuted: the entry script of an invoke transaction
+    (never deployed) can Storage.Put under its own address. Proved outside the finding class; this is
+    what gives (4) its hypothesis for every undeployed migration target. *)
+Definition c44_no_orphan_statement : Prop := forall track a bs s,
   good_state s = true -> is_addr a = true -> forallb block_wf bs = true ->
   (contract_record (next_view s) a = [] -> forall sfx, storage_at (next_view s) a sfx = []) ->
-  let s' := fst (run_chain true track s bs) in
+  let s' := fst (run_chain false track s bs) in
+  (contract_record (next_view s') a = [] -> forall sfx, storage_at (next_view s') a sfx = []).
+
+Theorem c44_no_orphan_refuted : ~ c44_no_orphan_statement.
+Proof.
+  intro H.
+  pose proof (H 0 ex_a1 wit_chain (mkState [] [] []) eq_refl eq_refl eq_refl (fun _ sfx => eq_refl)) as D.
+  cbv zeta in D. specialize (D eq_refl [1]). vm_compute in D. discriminate.
+Qed.
+Print Assumptions c44_no_orphan_refuted.
+
+Theorem c44_no_orphan_partial : forall track a bs s,
+  outside_finding_class track s bs ->
+  good_state s = true -> is_addr a = true -> forallb block_wf bs = true ->
+  (contract_record (next_view s) a = [] -> forall sfx, storage_at (next_view s) a sfx = []) ->
+  let s' := fst (run_chain false track s bs) in
   good_state s' = true /\
   (contract_record (next_view s') a = [] -> forall sfx, storage_at (next_view s') a sfx = []).
 Proof.
-  intros track a bs s G Aa W O s'. apply good_state_good in G.
+  intros track a bs s E G Aa W O s'. apply good_state_good in G.
+  unfold outside_finding_class in E. unfold s'. rewrite E.
   destruct (no_orphan_storage track a bs s G Aa W O) as [G' O']. split; [apply good_state_good; exact G'|exact O'].
 Qed.
-Print Assumptions c44_no_orphan_storage.
+Print Assumptions c44_no_orphan_partial.
 
-Theorem c44_no_orphan_storage_step : forall track h a s o s',
+(** the same invariant for one service call with the test effective *)
+Theorem c44_no_orphan_storage_step_partial : forall track h a s o s',
   good_state s = true -> is_addr a = true -> cop_wf o = true ->
   (contract_record s a = [] -> forall sfx, storage_at s a sfx = []) ->
   exec true track h s o = Ok s' ->
   (contract_record s' a = [] -> forall sfx, storage_at s' a sfx = []).
 Proof. intros track h a s o s' G. apply good_state_good in G. apply no_orphan_storage_step; exact G. Qed.
-Print Assumptions c44_no_orphan_storage_step.
+Print Assumptions c44_no_orphan_storage_step_partial.
 
 (** Non-vacuity. Two addresses that differ only in the last byte (0x07.. 0x07 0x01 / 0x02), a third
     one that is all 0xff (its prefix range has no upper limit after the carry); entries of the old
@@ -234,11 +350,8 @@ Print Assumptions c44_no_orphan_storage_step.
     the cache hiding a store entry, an overlay value shadowing a store value, a key of the
     neighbouring address, and a pending entry under the new address. The hypotheses hold; the
     migration moves exactly the four live entries; destroying the 0xff contract empties it; a later
-    chain that tries to redeploy / write is refused. *)
-Definition ex_a1 : bytes := repeat 7 19 ++ [1].
-Definition ex_a2 : bytes := repeat 7 19 ++ [2].
-Definition ex_a3 : bytes := repeat 255 20.
-Definition ex_code : bytes := [1; 2; 3].
+    chain that tries to redeploy / migrate onto the destroyed address is refused, and that chain is
+    outside the finding class. *)
 Definition ex_state : state :=
   mkState [(5 :: ex_a1 ++ [97], [1; 1]); (5 :: ex_a1 ++ [98], []); (5 :: ex_a2 ++ [120], [9])]
           [(4 :: ex_a1, ex_code); (5 :: ex_a1, [2]); (5 :: ex_a1 ++ [97; 98], [3])]
@@ -258,13 +371,14 @@ Example c44_nonvacuous :
   (let r := clean_contract_storage 0 10 ex_a3 ex_state in
    snd r = true /\ cache_iterate ST_STORAGE ex_state ex_a3 = ([(ex_a3, [5]); (ex_a3 ++ [255], [5; 5])], true) /\
    cache_iterate ST_STORAGE (fst r) ex_a3 = ([], true) /\ get_contract (fst r) ex_a3 = (None, true)) /\
-  (let bs := [mkBlock 10 [TInvoke [CPut ex_a1 [100] [1]; CDestroy ex_a1]];
-              mkBlock 11 [TDeploy ex_a1 ex_code; TInvoke [CPut ex_a1 [1] [1]]; TInvoke [CMigrate ex_a3 ex_a1 ex_code];
+  (let bs := [mkBlock 10 [TInvoke [CCall ex_a1; CPut ex_a1 [100] [1]; CDestroy ex_a1]];
+              mkBlock 11 [TDeploy ex_a1 ex_code; TInvoke [CCall ex_a1; CPut ex_a1 [1] [1]]; TInvoke [CMigrate ex_a3 ex_a1 ex_code];
                           TInvoke [CCreate ex_a1 ex_code; CMigrate ex_a3 ex_a2 ex_code]]] in
    forallb block_wf bs = true /\ existsb (block_unsets ex_a1) bs = false /\
-   snd (run_chain true 0 ex_state bs) = [[Committed]; [Failed; Failed; Failed; Committed]] /\
-   cache_iterate ST_STORAGE (next_view (fst (run_chain true 0 ex_state bs))) ex_a1 = ([], true) /\
-   cache_iterate ST_STORAGE (next_view (fst (run_chain true 0 ex_state bs))) ex_a2 =
+   run_chain false 0 ex_state bs = run_chain true 0 ex_state bs /\
+   snd (run_chain false 0 ex_state bs) = [[Committed]; [Failed; Failed; Failed; Committed]] /\
+   cache_iterate ST_STORAGE (next_view (fst (run_chain false 0 ex_state bs))) ex_a1 = ([], true) /\
+   cache_iterate ST_STORAGE (next_view (fst (run_chain false 0 ex_state bs))) ex_a2 =
      ([(ex_a2, [5]); (ex_a2 ++ [255], [5; 5])], true)).
 Proof.
   vm_compute. repeat split; try reflexivity; discriminate.
